@@ -109,8 +109,11 @@ def shard_stats(arg):
 # --------------------------------------------------------------- unit machine
 def fixture():
     N = 7
-    Rs = [geom.rodrigues((0, 0, 1), 0.3 * k) @ geom.rodrigues((1, 0, 0),
-                                                                0.1 * k)
+    # the heading sweeps back and forth: in all-pairs mode with an angular
+    # delta the pair end indices are then not ascending
+    yaw = [0.0, 0.5, 1.0, 0.5, 0.0, 0.5, 1.0]
+    Rs = [geom.rodrigues((0, 0, 1), yaw[k]) @ geom.rodrigues((1, 0, 0),
+                                                              0.1 * k)
           for k in range(N)]
     ps = [np.array([1.0 * k, 0.5 * (k % 2), 0.25 * k]) for k in range(N)]
     # stand-still in the reference between poses 2 and 3
@@ -406,7 +409,7 @@ def assembly_cases():
     for rel in rels + ["point_distance_error_ratio"]:
         for u in unit_opts.get(rel, [None]):
             for dunit, deltas in (("f", (1, 2, 3)), ("m", (1.0, 2.5)),
-                                  ("d", (20.0, 40.0))):
+                                  ("d", (28.0, 57.0))):
                 for delta in deltas:
                     for allp in (False, True):
                         for from_ref in (False, True):
